@@ -286,4 +286,19 @@ def runMemoSeparatedOld (D r cs sn : Rat) : List Req → Cache → List Rat
   | [], _ => []
   | q :: qs, c => let (v, c') := memoModeSeparatedOld D r cs sn q c; v :: runMemoSeparatedOld D r cs sn qs c'
 
+
+/-! ## `make_zernike_basis`: which mode is the `j`-th element
+
+`modes = [f(i, …) for i in range(starting_mode, starting_mode + num_modes)]` with
+`f = zernike_ansi` or `zernike_noll`; for `grid=None` the elements are Field generators, each bound
+to its own index at construction time. -/
+
+def basisModes (ansi : Bool) (start num : Nat) : List (Nat × Int) :=
+  (List.range num).map fun j => if ansi then ansiToZernike (start + j) else nollToZernike (start + j)
+
+/-- a list of closures that all look the loop variable up when *called* (late binding): every
+generator evaluates the last index -/
+def basisModesLateBinding (ansi : Bool) (start num : Nat) : List (Nat × Int) :=
+  (List.range num).map fun _ => if ansi then ansiToZernike (start + (num - 1)) else nollToZernike (start + (num - 1))
+
 end HcipyVerif.Zernike
